@@ -354,6 +354,9 @@ func (r *GCRoles) waitSitesInPublish() []ssa.Instruction {
 // rules are not repeated.
 func gcSafety(c *Check, P string, r *GCRoles) {
 	S := P + ".S"
+	c04FreshCopy(c, S, r)
+	c04Resend(c, S, r)
+	c05OneInFlight(c, S, r)
 	c07SendCloseExclusion(c, S, r)
 	c07CloseOnce(c, S, r)
 	c07WaitGroup(c, S, r)
